@@ -70,6 +70,19 @@ func (vc *VC) smtText(o *Obligation, withModel bool) string {
 	return b.String()
 }
 
+// smtGround: the query with every quantified assertion dropped (a weakening of the assumptions).
+func (vc *VC) smtGround(o *Obligation) string {
+	var b strings.Builder
+	for _, ln := range strings.Split(vc.smtText(o, false), "\n") {
+		if strings.HasPrefix(ln, "(assert") && (strings.Contains(ln, "(forall ") || strings.Contains(ln, "(exists ")) {
+			continue
+		}
+		b.WriteString(ln)
+		b.WriteByte('\n')
+	}
+	return b.String()
+}
+
 func runSolver(ctx context.Context, sc solverCfg, file string, timeoutS int) (string, string, float64) {
 	t0 := time.Now()
 	args := sc.cmd(file, timeoutS)
@@ -113,6 +126,20 @@ func solveOne(dir string, vc *VC, o *Obligation, timeoutS int, all bool) *SolveR
 		res.Status, res.Solver, res.TimeS = st, solverCfgs[0].name, tm
 		if st == "sat" {
 			res.Output = out
+		}
+		if st == "unknown" {
+			// quantified assumptions defeat model finding: retry on the ground part only. "unsat" there is
+			// still a definite vacuity failure; "sat" means the ground assumptions are consistent.
+			gfile := strings.TrimSuffix(file, ".smt2") + ".ground.smt2"
+			_ = os.WriteFile(gfile, []byte(vc.smtGround(o)), 0o644)
+			st2, _, tm2 := runSolver(context.Background(), solverCfgs[0], gfile, 3)
+			res.Tried = append(res.Tried, fmt.Sprintf("%s(ground):%s:%.2fs", solverCfgs[0].name, st2, tm2))
+			if st2 == "unsat" {
+				res.Status = "unsat"
+			} else if st2 == "sat" {
+				res.Status = "sat-ground"
+			}
+			_ = os.Remove(gfile)
 		}
 		return res
 	}
